@@ -1157,9 +1157,11 @@ class Explorer(object):
     def push_alternative(self, prefix):
         self.work.append(prefix)
 
-    def _z3_check(self, terms, timeout_ms):
+    def _z3_check(self, terms, timeout_ms, seed=None):
         s = z3.Solver() if self.backend == 'INT' else z3.SolverFor('QF_BV')
         s.set('timeout', int(timeout_ms))
+        if seed is not None:
+            s.set('random_seed', seed)
         for t in terms:
             s.add(t)
         r = str(s.check())
@@ -1189,7 +1191,15 @@ class Explorer(object):
                 self.stats.cvc5_decided += 1
                 return 'sat', s2.model()
         if timeout_ms > first:
-            r, m, s = self._z3_check(terms, timeout_ms - first)
+            # z3's non-linear and bit-vector search is sensitive to timing and seed: a query it decides in
+            # seconds on one attempt can run out the clock on another.  Spend the remaining budget on
+            # several attempts with different seeds (shorter ones first) rather than on a single run.
+            remaining = timeout_ms - first
+            r, m = 'unknown', None
+            for k, share in enumerate((0.15, 0.25, 0.6)):
+                r, m, s = self._z3_check(terms, max(1000, int(remaining * share)), seed=k + 1)
+                if r != 'unknown':
+                    break
             if r == 'unknown' and os.environ.get('SYMX_DUMP'):
                 self._dumpn = getattr(self, '_dumpn', 0) + 1
                 with open(os.path.join(os.environ['SYMX_DUMP'],
